@@ -23,6 +23,8 @@ def gen_step(rng, i, ops=OPS, big=False, maxdata=None, fails=False, dirs=False, 
     if dirs and op == "push" and rng.random() < 0.3:
         # a directory: regular files (some multi-WRTE), sometimes a sub-directory (never pushed) and, with fails, an entry that cannot be opened
         files = [["f%d" % k, rng.choice([0, 1, 300, 5000, 9000]), "file"] for k in range(rng.randint(1, 4))]
+        if len(files) >= 3:
+            files[2][0] = [".nomedia", "..data", ".f2", "f2"][len(sd) and int(sd[:2], 16) % 4]      # (a name with a leading dot is a file like any other; no extra draw from rng)
         if rng.random() < 0.3:
             files.append(["sub", 10, "subdir"])
         if fails and rng.random() < 0.4:
@@ -318,7 +320,7 @@ class Runner(object):
         path = step["path"].encode()
         plan = self.sim.sync_plan
         plan.files[path] = content
-        plan.stats[path] = (0o100644, len(content), 1500000000)
+        plan.stats[path] = (0o100644, len(content) if step.get("stat_size") is None else step["stat_size"], 1500000000)   # (a /proc file, or one that grew after the STAT, reports another size than RECV delivers)
         if step.get("dies"):
             plan.die_on.add(path)
         rec = step.get("rec", "64k")
@@ -371,7 +373,8 @@ class Runner(object):
         if got != content:
             v.append(self._v("C08", "wrong-bytes", "pull(%s) wrote %d bytes, device file has %d (first difference at %s)" % (step["path"], len(got), len(content), _first_diff(got, content))))
         if cb is not None:
-            if sum(c[1] for c in cb_calls) != len(content) or any(c[0] != step["path"] or c[2] != len(content) for c in cb_calls):
+            total = len(content) if step.get("stat_size") is None else step["stat_size"]
+            if sum(c[1] for c in cb_calls) != len(content) or any(c[0] != step["path"] or c[2] != total for c in cb_calls):
                 v.append(self._v("C08", "callback", "callback saw %r for a %d-byte file" % (cb_calls[:5], len(content))))
         return v
 
@@ -387,6 +390,12 @@ class Runner(object):
                 f.write(content)
         else:
             src = io.BytesIO(content)
+            if step.get("src_pos"):
+                # a stream that was used before: its position is not 0 ("eof": a first push left it at its end). What is sent is the library's business (the rest);
+                # only the twins' agreement is judged for these steps (C16)
+                pre = b"ALREADY-CONSUMED " * 3
+                src = io.BytesIO(pre + content)
+                src.seek(len(pre) if step["src_pos"] == "mid" else len(pre) + len(content))
         if step.get("fail"):
             point = step["fail"][0]
             plan.send_fail[step["path"].encode()] = (tuple(point) if isinstance(point, list) else point, bytes.fromhex(step["fail"][1]))
@@ -413,11 +422,14 @@ class Runner(object):
             if cb is not None and step.get("src") != "file" and out.exc_name() in ("UnsupportedOperation", "AttributeError"):
                 mech = "bytesio-callback-fileno"
             return [self._v("C07", mech, "push raised %s" % out.brief(200))]
+        if step.get("src_pos"):
+            return []
         # transfers that started after this call began (other actors' concurrent pushes use other device paths)
         mine = [p for p in plan.pushed[n_before:] if p["path"] == step["path"].encode() or len(plan.pushed) - n_before == 1]
         v = check_pushed(mine, [(step["path"].encode(), content)], step["mode"], step["mtime"], (t0, t1), self._v)
         if cb is not None:
-            if sum(c[1] for c in cb_calls) != len(content) or any(c[0] != step["path"] or c[2] != len(content) for c in cb_calls):
+            total = len(content) if step.get("stat_size") is None else step["stat_size"]
+            if sum(c[1] for c in cb_calls) != len(content) or any(c[0] != step["path"] or c[2] != total for c in cb_calls):
                 v.append(self._v("C07", "callback", "callback saw %r for a %d-byte source" % (cb_calls[:5], len(content))))
         return v
 
